@@ -28,6 +28,15 @@ CHECKS = {
  "C12": (True, "model_checking", "stateless model checking of the real code: a closer thread (Conn.Close / cancel of ServeOne's context / cancel of Serve's context / listener close) placed at every point of each workload by deviation bounding (bound 2 on idle/unary/running/parked), leak census at quiescence",
          "Workloads idle, unary, server-stream, bidi, handler-running, operation-parked-in-a-stalled-transport (thorough: + client-stream, two unary, rendezvous pipe) are closed at every schedule point from the client (Conn.Close) or the server (ServeOne context); Server.Serve over a model listener with 1-2 connections is stopped by its context or by closing the listener. Oracle: Close returns; each transport is closed exactly once even after a second Close; pending and later calls fail; the active stream's context is done; no goroutine spawned by the library remains; ServeOne returned; Serve returns only after all its handlers returned; delivered data is a correct prefix.",
          "Deviation bound 1-2; model transport whose Close unblocks its pending I/O (as net.Conn does); handlers end when their stream context ends.", "4/C12"),
+ "C08": (True, "model_checking", "exhaustive enumeration against an independent reference decoder: all frames over boundary classes, ALL byte strings up to the stated lengths/alphabets, all varints below 2^20 (2^26) plus structure classes",
+         "ParseFrame/AppendFrame/ReadVarint/AppendVarint/SplitN of the working tree are compared with harness/refwire (written from the wire description, no drpc import) on: 64 kinds x 4 flag combinations x 81 boundary id pairs x 6 payload lengths (round trip, byte equality with the reference encoder, every proper prefix = need-more with the input intact, trailing bytes = exact remainder); every byte string of length <=3 over all 256 values, <=6 (7) over 8 symbols, <=10 (12) over 4 symbols; every varint value below 2^20 (2^26) and boundary values; every string <=9 (11) over {00,01,7f,80,ff} for ReadVarint; all (length<=40, n) SplitN pairs. The reference's own need-more answers are validated by constructing a completing extension.",
+         "The reference decoder is the specification; 'every 64-bit value / all byte strings' are covered by exhaustive short strings and structure classes, not 2^64 values.", "4/C08"),
+ "C10": (True, "model_checking", "enumeration of error text x code x wrapping x RPC shape x messages-before-failing on the real conn/server pair (default schedule for the whole grid, deviation bound 1 for the core grid), dispatcher failures through the real drpcmux, probe afterwards",
+         "Handler errors built from 4 texts (empty, short, binary with NUL/0xff/CR/LF, 70 KiB) x 6 codes (0,1,2,12,2^32,2^64-1) x 5 wrappings (none, Unwrap x1/x3, Cause, errs class) x 4 RPC shapes x 0-2 messages sent before failing are returned by a real handler; unknown RPC and undecodable request go through the real drpcmux. Oracle: the client error's text equals the handler error's text, drpcerr.Code equals the attached code, the k messages arrive first, a nil handler result never yields a client error, and a probe RPC succeeds afterwards.",
+         "Bound 0 for the full grid, deviation bound 1 for the core grid (thorough: all short texts).", "4/C10"),
+ "C11": (True, "model_checking", "hybrid: (engine) stateless model checking of 3-call sequences with/without metadata incl. a call abandoned at every point, deviation bound 1 (2); (seq) exhaustive enumeration of maps and of all short byte strings against a reference protobuf decoder and the real protobuf library",
+         "Engine part: every sequence of three unary calls with metadata in {none, 1 entry, 2 entries} and sequences whose first call is abandoned by a canceller thread at every scheduling point (soft and hard cancel; between its metadata packet and its invoke among them) run on the real conn/server pair; handler r must see exactly the map attached to call r. Sequential part: all maps with <=2 (3) entries over 8 strings (empty, 127/128/16384 bytes, binary) round-trip, are read back identically by the independent protobuf decoder and by google.golang.org/protobuf through a dynamic map<string,string> field-1 message and vice versa; Decode on all byte strings <=3 (full alphabet) and <=7 (9) over 9 symbols never panics and never returns a map a protobuf decoder would not.",
+         "Deviation bound 1-2; string alphabet and lengths as listed.", "4/C11"),
 }
 ALL = ["C%02d" % i for i in range(1, 20)]
 NOT_BUILT_REASON = "check not built yet in this round (planned: see DESIGN.md section 4); not claimed until it exists"
@@ -46,7 +55,7 @@ def main():
             "thorough_cmd": f"./run {pid} thorough",
             "evidence_file": f"/verif/evidence/{pid}.json",
             "replay_cmd_template": "./run replay {path}",
-            "engine": "mc" if cat == "model_checking" and "real code" in tech else "seq",
+            "engine": "seq" if pid in ("C08","C09","C14","C17","C18") else "mc",
             "level_claimed": {"category": cat, "text": text, "design_ref": "DESIGN.md section " + ref},
             "level_note": note,
             "technique": tech,
@@ -62,8 +71,8 @@ def main():
             "add_only": True,
         },
         "engines": [
-            {"name": "mc", "path": "/verif/engine", "serves_properties": [p for p in ALL if p in CHECKS and CHECKS[p][0] and "real code" in CHECKS[p][2]], "kind_free_text": ENGINE},
-            {"name": "seq", "path": "/verif/cmd/seq", "serves_properties": [p for p in ALL if p in CHECKS and CHECKS[p][0] and "real code" not in CHECKS[p][2]], "kind_free_text": SEQ},
+            {"name": "mc", "path": "/verif/engine", "serves_properties": [p for p in ALL if p in CHECKS and CHECKS[p][0] and p not in ("C08","C09","C14","C17","C18")], "kind_free_text": ENGINE},
+            {"name": "seq", "path": "/verif/cmd/seq", "serves_properties": [p for p in ALL if p in CHECKS and CHECKS[p][0] and p in ("C08","C09","C11","C13","C14","C17","C18")], "kind_free_text": SEQ},
         ],
         "checks": checks,
         "not_applicable": na,
